@@ -194,13 +194,25 @@ pub fn default_scope(cfg: &ServerConfig, spec: &SignSpec) -> Result<(String, Str
 pub fn sign(base: &WireRequest, cfg: &ServerConfig, spec: &SignSpec) -> Result<Signed, String> {
     let scope = default_scope(cfg, spec)?;
     let credential = format!("{}/{}/{}/{}/{}", spec.access_key, scope.0, scope.1, scope.2, scope.3);
-    let probe = attach(base, cfg, spec, &credential, PLACEHOLDER_SIG);
+    sign_full(base, cfg, spec, &credential, (&scope.0, &scope.1, &scope.2))
+}
+
+/// Sign with an explicit credential string (any shape) under the key derived for `key_scope`
+/// = (date8, region, service).
+pub fn sign_full(
+    base: &WireRequest,
+    cfg: &ServerConfig,
+    spec: &SignSpec,
+    credential: &str,
+    key_scope: (&str, &str, &str),
+) -> Result<Signed, String> {
+    let probe = attach(base, cfg, spec, credential, PLACEHOLDER_SIG);
     let case = Case { req: probe, cfg: cfg.clone(), prov: ProviderScript::default() };
     let a = analyze(&case);
     let sts = a.sts.clone().ok_or_else(|| format!("model cannot form a string-to-sign: {}", a.verdict().short()))?;
     let creq = a.creq.clone().unwrap();
-    let key = key_chain(spec.secret.as_bytes(), &scope.0, &scope.1, &scope.2)[3];
+    let key = key_chain(spec.secret.as_bytes(), key_scope.0, key_scope.1, key_scope.2)[3];
     let sig = hex_lower(&hmac_sha256(&key, &sts));
-    let req = attach(base, cfg, spec, &credential, &sig);
-    Ok(Signed { req, signature: sig, credential, sts, creq, key })
+    let req = attach(base, cfg, spec, credential, &sig);
+    Ok(Signed { req, signature: sig, credential: credential.to_string(), sts, creq, key })
 }
